@@ -369,6 +369,9 @@ func runRegress(t *testing.T, prop string) int {
 		}
 	}
 	col.addExtra("regression_cases", n)
+	if t.Failed() {
+		t.FailNow()
+	}
 	return n
 }
 
